@@ -177,4 +177,692 @@ theorem step_equivX (X : Name) (R : List Factor) (pre post : List EProd) (p : EP
       · exact hbwd2 q hq he alt ha u hu
       · exact absurd he (oldlhs q (by simp [hq]))
 
+/-! ## what every step guarantees -/
+
+structure StepOK (ps ps' : List EProd) : Prop where
+  /-- same derivations from every factor string over the old names -/
+  equiv : ∀ fs w, (∀ x ∈ altVars fs, x ∈ variableNames ps) → (YieldE ps fs w ↔ YieldE ps' fs w)
+  /-- names are never dropped -/
+  names : ∀ x ∈ variableNames ps, x ∈ variableNames ps'
+  /-- a left-hand side of the result is an old left-hand side or not an old name at all -/
+  lhs : ∀ q ∈ ps', q.lhs ∈ ps.map (·.lhs) ∨ q.lhs ∉ variableNames ps
+
+theorem StepOK.refl (ps : List EProd) : StepOK ps ps :=
+  ⟨fun _ _ _ => Iff.rfl, fun _ h => h, fun q hq => .inl (List.mem_map.2 ⟨q, hq, rfl⟩)⟩
+
+theorem StepOK.trans {a b c : List EProd} (h1 : StepOK a b) (h2 : StepOK b c) : StepOK a c := by
+  refine ⟨?_, fun x hx => h2.names x (h1.names x hx), ?_⟩
+  · intro fs w hfs
+    exact (h1.equiv fs w hfs).trans (h2.equiv fs w (fun x hx => h1.names x (hfs x hx)))
+  · intro q hq
+    rcases h2.lhs q hq with h | h
+    · obtain ⟨q', hq', e⟩ := List.mem_map.1 h
+      rw [← e]
+      exact h1.lhs q' hq'
+    · exact .inr (fun hx => h (h1.names _ hx))
+
+theorem not_mem_of_all {x : Name} {fs : List Factor} {V : List Name} (hx : x ∉ V)
+    (h : ∀ y ∈ altVars fs, y ∈ V) : x ∉ altVars fs := fun hm => hx (h x hm)
+
+/-! ## `separate_alternatives` -/
+
+theorem sepStep_spec {ps ps' : List EProd} (h : sepStep ps = .changed ps') :
+    ∃ pre p post, ps = pre ++ p :: post ∧ p.alts.length > 1 ∧
+      ps' = pre ++ p.alts.map (fun a => ⟨p.lhs, [a]⟩) ++ post := by
+  unfold sepStep at h
+  split at h
+  · rename_i pre p post hs
+    injection h with h
+    obtain ⟨x, hx, hl, _⟩ := splitFirstSome_spec _ _ _ _ _ hs
+    split at hx
+    · rename_i hlen
+      injection hx with hx
+      subst hx
+      exact ⟨pre, x, post, hl, hlen, h.symm⟩
+    · cases hx
+  · cases h
+
+theorem variableNames_sep (p : EProd) :
+    ∀ x, x ∈ variableNames (p.alts.map (fun a => (⟨p.lhs, [a]⟩ : EProd))) → x ∈ p.vars := by
+  intro x hx
+  obtain ⟨q, hq, h⟩ := mem_variableNames.1 hx
+  obtain ⟨a, ha, rfl⟩ := List.mem_map.1 hq
+  simp only [EProd.vars, List.mem_cons, mem_altsVars, List.mem_map]
+  rcases h with h | ⟨alt, halt, hx⟩
+  · exact .inl h
+  · simp only [List.mem_singleton] at halt
+    subst halt
+    exact .inr ⟨_, ⟨alt, ha, rfl⟩, hx⟩
+
+theorem sepStep_ok {ps ps' : List EProd} (h : sepStep ps = .changed ps') : StepOK ps ps' := by
+  obtain ⟨pre, p, post, rfl, hlen, rfl⟩ := sepStep_spec h
+  refine ⟨fun fs w _ => ?_, ?_, ?_⟩
+  · apply step_equiv0
+    · intro alt ha u hu
+      exact ⟨⟨p.lhs, [alt]⟩,
+        List.mem_append.2 (.inl (List.mem_append.2 (.inr (List.mem_map.2 ⟨alt, ha, rfl⟩)))),
+        rfl, alt, by simp, hu⟩
+    · intro q hq alt ha u hu
+      obtain ⟨a, ha', rfl⟩ := List.mem_map.1 hq
+      simp only [List.mem_singleton] at ha
+      subst ha
+      exact ⟨p, by simp, rfl, alt, ha', hu⟩
+  · intro x hx
+    simp only [variableNames_append, variableNames_cons, List.mem_append] at hx ⊢
+    rcases hx with hx | hx | hx
+    · exact .inl (.inl hx)
+    · refine .inl (.inr ?_)
+      simp only [EProd.vars, List.mem_cons, mem_altsVars, List.mem_map] at hx
+      apply mem_variableNames.2
+      rcases hx with rfl | ⟨_, ⟨alt, ha, rfl⟩, hx⟩
+      · obtain ⟨a0, ha0⟩ : ∃ a0, a0 ∈ p.alts := by
+          cases hp : p.alts with
+          | nil => simp [hp] at hlen
+          | cons a _ => exact ⟨a, by simp⟩
+        exact ⟨⟨p.lhs, [a0]⟩, List.mem_map.2 ⟨a0, ha0, rfl⟩, .inl rfl⟩
+      · exact ⟨⟨p.lhs, [alt]⟩, List.mem_map.2 ⟨alt, ha, rfl⟩, .inr ⟨alt, by simp, hx⟩⟩
+    · exact .inr hx
+  · intro q hq
+    simp only [List.mem_append] at hq
+    refine .inl ?_
+    simp only [List.map_append, List.map_cons, List.mem_append, List.mem_cons, List.mem_map]
+    rcases hq with (hq | hq) | hq
+    · exact .inl ⟨q, hq, rfl⟩
+    · obtain ⟨a, _, rfl⟩ := List.mem_map.1 hq
+      exact .inr (.inl rfl)
+    · exact .inr (.inr ⟨q, hq, rfl⟩)
+
+/-! ## `generate_name` -/
+
+theorem genNameLoop_not_mem (excl : List Name) (pre : Name) :
+    ∀ (fuel num : Nat) (X : Name), genNameLoop excl pre fuel num = some X → X ∉ excl
+  | 0, _, _, h => by simp [genNameLoop] at h
+  | f+1, num, X, h => by
+    simp only [genNameLoop] at h
+    split at h
+    · exact genNameLoop_not_mem excl pre f (num + 1) X h
+    · rename_i hn
+      injection h with h
+      subst h
+      exact hn
+
+theorem generateName_not_mem {excl : List Name} {pref X : Name}
+    (h : generateName excl pref = some X) : X ∉ excl := by
+  unfold generateName at h
+  split at h
+  · simp only at h
+    split at h
+    · exact genNameLoop_not_mem _ _ _ _ _ h
+    · exact genNameLoop_not_mem _ _ _ _ _ h
+  · rename_i hn
+    injection h with h
+    subst h
+    exact hn
+
+/-! ## helpers for located steps -/
+
+theorem Loc.prod_alts (L : Loc) (f : Factor) :
+    (L.prod f).alts = L.apre ++ ⟨L.x ++ f :: L.y, L.attr⟩ :: L.apost := rfl
+
+theorem Loc.prod_lhs (L : Loc) (f : Factor) : (L.prod f).lhs = L.lhs := rfl
+theorem Loc.withAlt_lhs (L : Loc) (fs : List Factor) : (L.withAlt fs).lhs = L.lhs := rfl
+theorem Loc.withAlt_alts (L : Loc) (fs : List Factor) :
+    (L.withAlt fs).alts = L.apre ++ ⟨fs, L.attr⟩ :: L.apost := rfl
+
+theorem located_fwd {L : Loc} {f : Factor} {fs' : List Factor} {G' : List EProd}
+    (hp1 : L.withAlt fs' ∈ G')
+    (hch : ∀ u, YieldE G' (L.x ++ f :: L.y) u → Der G' L.lhs u) :
+    ∀ alt ∈ (L.prod f).alts, ∀ u, YieldE G' alt.fs u → Der G' (L.prod f).lhs u := by
+  intro alt ha u hu
+  rw [Loc.prod_alts] at ha
+  simp only [List.mem_append, List.mem_cons] at ha
+  rcases ha with ha | rfl | ha
+  · exact ⟨_, hp1, rfl, alt, by simp [Loc.withAlt_alts, ha], hu⟩
+  · exact hch u hu
+  · exact ⟨_, hp1, rfl, alt, by simp [Loc.withAlt_alts, ha], hu⟩
+
+theorem located_bwd {X : Name} {R : List Factor} {L : Loc} {f : Factor} {fs' : List Factor}
+    {G : List EProd} (hp : L.prod f ∈ G) (hfresh : X ∉ variableNames G)
+    (hch : ∀ u, YieldE G (substAlt X R fs') u → YieldE G (L.x ++ f :: L.y) u) :
+    ∀ alt ∈ (L.withAlt fs').alts, ∀ u, YieldE G (substAlt X R alt.fs) u → Der G L.lhs u := by
+  intro alt ha u hu
+  rw [Loc.withAlt_alts] at ha
+  simp only [List.mem_append, List.mem_cons] at ha
+  have keep : ∀ alt, alt ∈ (L.prod f).alts → YieldE G (substAlt X R alt.fs) u → Der G L.lhs u := by
+    intro alt ha hu
+    rw [substAlt_fresh X R alt.fs (fun hx => hfresh (altVars_sub_variableNames hp ha X hx))] at hu
+    exact ⟨_, hp, rfl, alt, ha, hu⟩
+  rcases ha with ha | rfl | ha
+  · exact keep alt (by simp [Loc.prod_alts, ha]) hu
+  · exact ⟨_, hp, rfl, ⟨L.x ++ f :: L.y, L.attr⟩, by simp [Loc.prod_alts], hch u hu⟩
+  · exact keep alt (by simp [Loc.prod_alts, ha]) hu
+
+theorem located_bwd0 {L : Loc} {f : Factor} {fs' : List Factor}
+    {G : List EProd} (hp : L.prod f ∈ G)
+    (hch : ∀ u, YieldE G fs' u → YieldE G (L.x ++ f :: L.y) u) :
+    ∀ alt ∈ (L.withAlt fs').alts, ∀ u, YieldE G alt.fs u → Der G L.lhs u := by
+  intro alt ha u hu
+  rw [Loc.withAlt_alts] at ha
+  simp only [List.mem_append, List.mem_cons] at ha
+  rcases ha with ha | rfl | ha
+  · exact ⟨_, hp, rfl, alt, by simp [Loc.prod_alts, ha], hu⟩
+  · exact ⟨_, hp, rfl, ⟨L.x ++ f :: L.y, L.attr⟩, by simp [Loc.prod_alts], hch u hu⟩
+  · exact ⟨_, hp, rfl, alt, by simp [Loc.prod_alts, ha], hu⟩
+
+/-- names of the located production -/
+theorem Loc.prod_vars (L : Loc) (f : Factor) (x : Name) :
+    x ∈ (L.prod f).vars ↔ x = L.lhs ∨ x ∈ altsVars (L.apre.map (·.fs)) ∨ x ∈ altVars L.x ∨
+      x ∈ f.vars ∨ x ∈ altVars L.y ∨ x ∈ altsVars (L.apost.map (·.fs)) := by
+  simp [EProd.vars, Loc.prod, Loc.withAlt, altsVars_append, altsVars, altVars_append, altVars]
+
+theorem Loc.withAlt_vars (L : Loc) (fs : List Factor) (x : Name) :
+    x ∈ (L.withAlt fs).vars ↔ x = L.lhs ∨ x ∈ altsVars (L.apre.map (·.fs)) ∨ x ∈ altVars fs ∨
+      x ∈ altsVars (L.apost.map (·.fs)) := by
+  simp [EProd.vars, Loc.withAlt, altsVars_append, altsVars]
+
+/-- freshness facts for a name not in `variableNames (pre ++ L.prod f :: post)` -/
+theorem fresh_parts {X : Name} {L : Loc} {f : Factor} {pre post : List EProd}
+    (h : X ∉ variableNames (pre ++ L.prod f :: post)) :
+    X ≠ L.lhs ∧ X ∉ altVars L.x ∧ X ∉ f.vars ∧ X ∉ altVars L.y := by
+  simp only [variableNames_append, variableNames_cons, List.mem_append, Loc.prod_vars, not_or] at h
+  exact ⟨h.2.1.1, h.2.1.2.2.1, h.2.1.2.2.2.1, h.2.1.2.2.2.2.1⟩
+
+theorem mem_map_lhs_mid {pre post : List EProd} {p : EProd} :
+    p.lhs ∈ (pre ++ p :: post).map (·.lhs) := by simp
+
+theorem variableNames_nil : variableNames [] = [] := rfl
+
+theorem names_mono_mid (pre post : List EProd) (p : EProd) (news : List EProd)
+    (h : ∀ z ∈ p.vars, z ∈ variableNames news) :
+    ∀ z ∈ variableNames (pre ++ p :: post), z ∈ variableNames (pre ++ news ++ post) := by
+  intro z hz
+  simp only [variableNames_append, variableNames_cons, List.mem_append] at hz ⊢
+  rcases hz with hz | hz | hz
+  · exact .inl (.inl hz)
+  · exact .inl (.inr (h z hz))
+  · exact .inr hz
+
+theorem lhs_mid (pre post : List EProd) (p : EProd) (news : List EProd) (V : List Name)
+    (h : ∀ q ∈ news, q.lhs = p.lhs ∨ q.lhs ∉ V) :
+    ∀ q ∈ pre ++ news ++ post, q.lhs ∈ (pre ++ p :: post).map (·.lhs) ∨ q.lhs ∉ V := by
+  intro q hq
+  simp only [List.mem_append] at hq
+  rcases hq with (hq | hq) | hq
+  · exact .inl (List.mem_map.2 ⟨q, by simp [hq], rfl⟩)
+  · rcases h q hq with h | h
+    · exact .inl (by simp [h])
+    · exact .inr h
+  · exact .inl (List.mem_map.2 ⟨q, by simp [hq], rfl⟩)
+
+/-- `eliminate_single_grp`, case 1 (DESIGN.md B.6): a group with a single alternative is inlined. -/
+theorem inline_single_group {G : List EProd} (x g y : List Factor) (w : List Nat) :
+    YieldE G (x ++ .group [g] :: y) w ↔ YieldE G (x ++ g ++ y) w := by
+  constructor
+  · intro h
+    obtain ⟨u, v, rfl, hx, hgy⟩ := YieldE.split h
+    obtain ⟨u2, v2, rfl, hg, hy⟩ := YieldE.split_cons hgy
+    obtain ⟨alt, ha, hg'⟩ := yieldE_group_inv hg
+    have : alt = g := by simpa using ha
+    subst this
+    rw [List.append_assoc]
+    exact YieldE.append hx (YieldE.append hg' hy)
+  · intro h
+    rw [List.append_assoc] at h
+    obtain ⟨u, v, rfl, hx, hgy⟩ := YieldE.split h
+    obtain ⟨u2, v2, rfl, hg, hy⟩ := YieldE.split hgy
+    exact YieldE.append hx (.group [g] g (by simp) hg hy)
+
+theorem groupInner_eq {f : Factor} {as : Alts} (h : f.groupInner = some as) : f = .group as := by
+  cases f <;> simp [Factor.groupInner] at h
+  subst h; rfl
+theorem repInner_eq {f : Factor} {as : Alts} (h : f.repInner = some as) : f = .rep as := by
+  cases f <;> simp [Factor.repInner] at h
+  subst h; rfl
+theorem optInner_eq {f : Factor} {as : Alts} (h : f.optInner = some as) : f = .opt as := by
+  cases f <;> simp [Factor.optInner] at h
+  subst h; rfl
+
+theorem mem_mid {α} {pre post : List α} {p : α} : p ∈ pre ++ p :: post := by simp
+
+/-! ## `eliminate_groups` -/
+
+theorem groupStep_ok {ps ps' : List EProd} (h : groupStep ps = .changed ps') : StepOK ps ps' := by
+  unfold groupStep at h
+  split at h
+  · cases h
+  · rename_i L hL
+    obtain ⟨f, hf, rfl⟩ := locate_spec hL
+    split at h
+    · -- case 1: single alternative, inlined
+      rename_i single hin
+      rw [hin] at hf
+      have hfg := groupInner_eq hf
+      subst hfg
+      injection h with h
+      subst h
+      refine ⟨fun fs w _ => ?_, ?_, ?_⟩
+      · apply step_equiv0
+        · apply located_fwd (fs' := L.x ++ single ++ L.y) (by simp)
+          intro u hu
+          exact ⟨_, (by simp : L.withAlt (L.x ++ single ++ L.y) ∈ _), rfl,
+            ⟨L.x ++ single ++ L.y, L.attr⟩, by simp [Loc.withAlt_alts],
+            (inline_single_group _ _ _ _).1 hu⟩
+        · intro q hq
+          simp only [List.mem_singleton] at hq
+          subst hq
+          apply located_bwd0 mem_mid
+          intro u hu
+          exact (inline_single_group _ _ _ _).2 hu
+      · apply names_mono_mid
+        intro z hz
+        simp only [variableNames_cons, variableNames_nil, List.append_nil, Loc.prod_vars,
+          Loc.withAlt_vars, Factor.vars, altsVars, altVars_append, List.mem_append] at hz ⊢
+        grind
+      · apply lhs_mid
+        intro q hq
+        simp only [List.mem_singleton] at hq
+        subst hq
+        exact .inl rfl
+    · -- case 2: new production for the group
+      rename_i hmulti
+      have hfg := groupInner_eq hf
+      subst hfg
+      split at h
+      · cases h
+      · rename_i X hX
+        injection h with h
+        subst h
+        have hfresh := generateName_not_mem hX
+        obtain ⟨hXl, hXx, hXf, hXy⟩ := fresh_parts hfresh
+        have hXin : X ∉ altsVars L.inner := by simpa [Factor.vars] using hXf
+        refine ⟨fun fs w hfs => ?_, ?_, ?_⟩
+        · apply step_equivX X [.group L.inner] _ _ _ _ hfresh
+          · apply located_fwd (fs' := L.x ++ .n X .none :: L.y) (by simp)
+            intro u hu
+            obtain ⟨u1, u2, rfl, h1, h2⟩ := YieldE.split hu
+            obtain ⟨u3, u4, rfl, h3, h4⟩ := YieldE.split_cons h2
+            obtain ⟨alt, ha, h3'⟩ := yieldE_group_inv h3
+            refine ⟨_, (by simp : L.withAlt (L.x ++ .n X .none :: L.y) ∈ _), rfl,
+              ⟨L.x ++ .n X .none :: L.y, L.attr⟩, by simp [Loc.withAlt_alts], ?_⟩
+            refine YieldE.append h1 (YieldE.cons (Der.yield ?_ _) h4)
+            exact ⟨⟨X, L.inner.map (fun a => ⟨a, .none⟩)⟩, by simp, rfl, ⟨alt, .none⟩,
+              List.mem_map.2 ⟨alt, ha, rfl⟩, h3'⟩
+          · intro q hq hne
+            simp only [List.mem_cons, List.not_mem_nil, or_false] at hq
+            rcases hq with rfl | rfl
+            · apply located_bwd mem_mid hfresh
+              intro u hu
+              simpa [substAlt_append, substAlt, Factor.subst, substAlt_fresh X _ _ hXx,
+                substAlt_fresh X _ _ hXy] using hu
+            · exact absurd rfl hne
+          · intro q hq he
+            simp only [List.mem_cons, List.not_mem_nil, or_false] at hq
+            rcases hq with rfl | rfl
+            · exact absurd he (Ne.symm hXl)
+            · intro alt ha u hu
+              obtain ⟨a, ha', rfl⟩ := List.mem_map.1 ha
+              have hxa : X ∉ altVars a := fun hx => hXin (mem_altsVars.2 ⟨a, ha', hx⟩)
+              rw [substAlt_fresh X _ _ hxa] at hu
+              exact yieldE_group_intro ha' hu
+          · exact not_mem_of_all hfresh hfs
+        · apply names_mono_mid
+          intro z hz
+          simp only [variableNames_cons, variableNames_nil, List.append_nil, Loc.prod_vars,
+            Loc.withAlt_vars, List.mem_append] at hz ⊢
+          simp only [Factor.vars, altVars_append, altVars, List.mem_append, EProd.vars,
+            List.mem_cons, List.map_map, Function.comp_def, List.map_id', List.not_mem_nil,
+            or_false] at hz ⊢
+          grind
+        · apply lhs_mid
+          intro q hq
+          simp only [List.mem_cons, List.not_mem_nil, or_false] at hq
+          rcases hq with rfl | rfl
+          · exact .inl rfl
+          · exact .inr hfresh
+
+/-! ## `eliminate_repetitions` -/
+
+/-- right-recursive helper (`R' → a R' | ε`, LL(k)) covers the repetition -/
+theorem rep_to_nt_ll {G : List EProd} {X : Name} {inner : Alts} {rest : List Factor}
+    (hnil : Der G X [])
+    (hstep : ∀ alt ∈ inner, ∀ u v, YieldE G alt u → Der G X v → Der G X (u ++ v))
+    {w : List Nat} (h : YieldE G (.rep inner :: rest) w) :
+    ∃ a b, w = a ++ b ∧ Der G X a ∧ YieldE G rest b := by
+  refine yieldE_rep_ind (fun w => ∃ a b, w = a ++ b ∧ Der G X a ∧ YieldE G rest b) ?_ ?_ h
+  · intro v hv; exact ⟨[], v, rfl, hnil, hv⟩
+  · rintro alt u v ha hu ⟨a, b, rfl, hda, hb⟩
+    exact ⟨u ++ a, b, by simp, hstep alt ha u a hu hda, hb⟩
+
+/-- left-recursive helper (`R' → R' a | ε`, LALR(1)) covers the repetition -/
+theorem rep_to_nt_lr {G : List EProd} {X : Name} {inner : Alts} {rest : List Factor}
+    (hnil : Der G X [])
+    (hstep : ∀ alt ∈ inner, ∀ u v, Der G X u → YieldE G alt v → Der G X (u ++ v))
+    {w : List Nat} (h : YieldE G (.rep inner :: rest) w) :
+    ∃ a b, w = a ++ b ∧ Der G X a ∧ YieldE G rest b := by
+  have := yieldE_rep_ind
+    (fun w => ∀ u0, Der G X u0 → ∃ a b, w = a ++ b ∧ Der G X (u0 ++ a) ∧ YieldE G rest b) ?_ ?_ h
+  · simpa using this [] hnil
+  · intro v hv u0 hu0; exact ⟨[], v, rfl, by simpa using hu0, hv⟩
+  · intro alt u v ha hu ih u0 hu0
+    obtain ⟨a, b, rfl, hda, hb⟩ := ih (u0 ++ u) (hstep alt ha u0 u hu0 hu)
+    exact ⟨u ++ a, b, by simp, by simpa using hda, hb⟩
+
+theorem repStep_ok_core (ty : GType) (L : Loc) (X : Name) (body : List Factor)
+    (hbody : (match L.inner with
+        | [single] => (match ty with | .ll => single ++ [Factor.n X .none] | .lr => .n X .none :: single)
+        | _ => (match ty with | .ll => [.group L.inner, .n X .none] | .lr => [.n X .none, .group L.inner])) = body)
+    (hfresh : X ∉ variableNames (L.pre ++ L.prod (.rep L.inner) :: L.post)) :
+    StepOK (L.pre ++ L.prod (.rep L.inner) :: L.post)
+      (L.pre ++ [L.withAlt (L.x ++ .n X .repAnchor :: L.y), ⟨X, [⟨body, .addToColl⟩]⟩,
+        ⟨X, [⟨[], .collStart⟩]⟩] ++ L.post) := by
+      obtain ⟨hXl, hXx, hXf, hXy⟩ := fresh_parts hfresh
+      have hXin : X ∉ altsVars L.inner := by simpa [Factor.vars] using hXf
+      have hXalt : ∀ a ∈ L.inner, X ∉ altVars a := fun a ha hx => hXin (mem_altsVars.2 ⟨a, ha, hx⟩)
+      -- forward: the helper derives what the repetition derives
+      have fwd : ∀ G : List EProd, (⟨X, [⟨body, .addToColl⟩]⟩ : EProd) ∈ G →
+          (⟨X, [⟨[], .collStart⟩]⟩ : EProd) ∈ G → ∀ (rest : List Factor) (w : List Nat),
+          YieldE G (.rep L.inner :: rest) w → ∃ a b, w = a ++ b ∧ Der G X a ∧ YieldE G rest b := by
+        intro G h2 h2a rest w hw
+        have hnil : Der G X [] := ⟨_, h2a, rfl, ⟨[], .collStart⟩, by simp, .nil⟩
+        have mk : ∀ u, YieldE G body u → Der G X u :=
+          fun u hu => ⟨_, h2, rfl, ⟨body, .addToColl⟩, by simp, hu⟩
+        cases ty with
+        | ll =>
+          apply rep_to_nt_ll hnil _ hw
+          intro alt ha u v hu hv
+          apply mk
+          split at hbody
+          · rename_i single hin
+            simp only at hbody
+            subst hbody
+            rw [hin] at ha
+            simp only [List.mem_singleton] at ha
+            subst ha
+            exact YieldE.append hu (hv.yield _)
+          · simp only at hbody
+            subst hbody
+            exact YieldE.cons (yieldE_group_intro ha hu) (hv.yield _)
+        | lr =>
+          apply rep_to_nt_lr hnil _ hw
+          intro alt ha u v hu hv
+          apply mk
+          split at hbody
+          · rename_i single hin
+            simp only at hbody
+            subst hbody
+            rw [hin] at ha
+            simp only [List.mem_singleton] at ha
+            subst ha
+            exact YieldE.cons (hu.yield _) hv
+          · simp only at hbody
+            subst hbody
+            exact YieldE.cons (hu.yield _) (yieldE_group_intro ha hv)
+      -- backward: the translated body stays inside the repetition
+      have bwd : ∀ G : List EProd, ∀ u, YieldE G (substAlt X [.rep L.inner] body) u →
+          YieldE G [.rep L.inner] u := by
+        intro G u hu
+        cases ty with
+        | ll =>
+          split at hbody
+          · rename_i single hin
+            simp only at hbody
+            subst hbody
+            have hs : X ∉ altVars single := hXalt single (by simp [hin])
+            simp only [substAlt_append, substAlt_fresh X _ _ hs, substAlt, Factor.subst, if_true,
+              List.append_nil] at hu
+            obtain ⟨u1, u2, rfl, h1, h2⟩ := YieldE.split hu
+            exact yieldE_rep_step (by simp [hin]) h1 h2
+          · simp only at hbody
+            subst hbody
+            simp only [substAlt, Factor.subst, if_true, List.append_nil, List.singleton_append,
+              substAlts_fresh X _ _ hXin] at hu
+            obtain ⟨u1, u2, rfl, h1, h2⟩ := YieldE.split_cons hu
+            obtain ⟨alt, ha, h1'⟩ := yieldE_group_inv h1
+            exact yieldE_rep_step ha h1' h2
+        | lr =>
+          split at hbody
+          · rename_i single hin
+            simp only at hbody
+            subst hbody
+            have hs : X ∉ altVars single := hXalt single (by simp [hin])
+            simp only [substAlt, Factor.subst, if_true, substAlt_fresh X _ _ hs,
+              List.singleton_append] at hu
+            obtain ⟨u1, u2, rfl, h1, h2⟩ := YieldE.split_cons hu
+            exact yieldE_rep_snoc (by simp [hin]) h1 h2
+          · simp only at hbody
+            subst hbody
+            simp only [substAlt, Factor.subst, if_true, List.append_nil, List.singleton_append,
+              substAlts_fresh X _ _ hXin] at hu
+            obtain ⟨u1, u2, rfl, h1, h2⟩ := YieldE.split_cons hu
+            obtain ⟨alt, ha, h2'⟩ := yieldE_group_inv h2
+            exact yieldE_rep_snoc ha h1 h2'
+      have innerVars : ∀ z ∈ altsVars L.inner, z ∈ altVars body := by
+        intro z hz
+        cases ty <;> split at hbody <;> simp only at hbody <;> subst hbody <;>
+          simp_all [altVars_append, altVars, Factor.vars, altsVars]
+      refine ⟨fun fs w hfs => ?_, ?_, ?_⟩
+      · apply step_equivX X [.rep L.inner] _ _ _ _ hfresh
+        · apply located_fwd (fs' := L.x ++ .n X .repAnchor :: L.y) (by simp)
+          intro u hu
+          obtain ⟨u1, u2, rfl, h1, h2⟩ := YieldE.split hu
+          obtain ⟨a, b, rfl, hda, hb⟩ := fwd _ (by simp) (by simp) _ _ h2
+          exact ⟨_, (by simp : L.withAlt (L.x ++ .n X .repAnchor :: L.y) ∈ _), rfl,
+            ⟨L.x ++ .n X .repAnchor :: L.y, L.attr⟩, by simp [Loc.withAlt_alts],
+            YieldE.append h1 (YieldE.cons (hda.yield _) hb)⟩
+        · intro q hq hne
+          simp only [List.mem_cons, List.not_mem_nil, or_false] at hq
+          rcases hq with rfl | rfl | rfl
+          · apply located_bwd mem_mid hfresh
+            intro u hu
+            simpa [substAlt_append, substAlt, Factor.subst, substAlt_fresh X _ _ hXx,
+              substAlt_fresh X _ _ hXy] using hu
+          · exact absurd rfl hne
+          · exact absurd rfl hne
+        · intro q hq he
+          simp only [List.mem_cons, List.not_mem_nil, or_false] at hq
+          rcases hq with rfl | rfl | rfl
+          · exact absurd he (Ne.symm hXl)
+          · intro alt ha u hu
+            simp only [List.mem_singleton] at ha
+            subst ha
+            exact bwd _ u hu
+          · intro alt ha u hu
+            simp only [List.mem_singleton] at ha
+            subst ha
+            simp only [substAlt] at hu
+            have := yieldE_nil_inv hu
+            subst this
+            exact yieldE_rep_nil
+        · exact not_mem_of_all hfresh hfs
+      · apply names_mono_mid
+        intro z hz
+        simp only [variableNames_cons, variableNames_nil, List.append_nil, Loc.prod_vars,
+          Loc.withAlt_vars, List.mem_append] at hz ⊢
+        simp only [Factor.vars, altVars_append, altVars, List.mem_append, EProd.vars,
+          List.mem_cons, List.map_cons, List.map_nil, altsVars, List.not_mem_nil,
+          or_false, List.append_nil] at hz ⊢
+        have := innerVars z
+        grind
+      · apply lhs_mid
+        intro q hq
+        simp only [List.mem_cons, List.not_mem_nil, or_false] at hq
+        rcases hq with rfl | rfl | rfl
+        · exact .inl rfl
+        · exact .inr hfresh
+        · exact .inr hfresh
+
+theorem repStep_ok {ty : GType} {ps ps' : List EProd} (h : repStep ty ps = .changed ps') :
+    StepOK ps ps' := by
+  unfold repStep at h
+  split at h
+  · cases h
+  · rename_i L hL
+    obtain ⟨f, hf, rfl⟩ := locate_spec hL
+    have hfg := repInner_eq hf
+    subst hfg
+    split at h
+    · cases h
+    · rename_i X hX
+      simp only at h
+      injection h with h
+      subst h
+      exact repStep_ok_core ty L X _ rfl (generateName_not_mem hX)
+
+/-! ## `eliminate_options` (unreachable behind `extract_options`; correct when the located
+alternation is the first one of its production, which `separate_alternatives` guarantees) -/
+
+theorem removeAt_mid {α} (x : List α) (f : α) (y : List α) :
+    removeAt? x.length (x ++ f :: y) = some (x ++ y) := by
+  induction x with
+  | nil => simp [removeAt?]
+  | cons a x ih => simp [removeAt?, ih]
+
+theorem yieldE_append3 {G : List EProd} {a b c : List Factor} {u v w : List Nat}
+    (h1 : YieldE G a u) (h2 : YieldE G b v) (h3 : YieldE G c w) :
+    YieldE G (a ++ b ++ c) (u ++ (v ++ w)) := by
+  have := YieldE.append (YieldE.append h1 h2) h3
+  simpa using this
+
+theorem yieldE_split3 {G : List EProd} {a b c : List Factor} {w : List Nat}
+    (h : YieldE G (a ++ b ++ c) w) :
+    ∃ u v x, w = u ++ (v ++ x) ∧ YieldE G a u ∧ YieldE G b v ∧ YieldE G c x := by
+  obtain ⟨uv, x, rfl, h12, h3⟩ := YieldE.split h
+  obtain ⟨u, v, rfl, h1, h2⟩ := YieldE.split h12
+  exact ⟨u, v, x, by simp, h1, h2, h3⟩
+
+theorem optStep_ok_case1 (L : Loc) (single : List Factor) :
+    StepOK (L.pre ++ L.prod (.opt [single]) :: L.post)
+      (L.pre ++ [L.withAlt (L.x ++ single ++ L.y), L.withAlt (L.x ++ L.y)] ++ L.post) := by
+  refine ⟨fun fs w _ => ?_, ?_, ?_⟩
+  · apply step_equiv0
+    · apply located_fwd (fs' := L.x ++ single ++ L.y) (by simp)
+      intro u hu
+      obtain ⟨u1, u2, rfl, h1, h2⟩ := YieldE.split hu
+      obtain ⟨u3, u4, rfl, h3, h4⟩ := YieldE.split_cons h2
+      rcases yieldE_opt_inv h3 with rfl | ⟨alt, ha, h3'⟩
+      · exact ⟨_, (by simp : L.withAlt (L.x ++ L.y) ∈ _), rfl, ⟨L.x ++ L.y, L.attr⟩,
+          by simp [Loc.withAlt_alts], by simpa using YieldE.append h1 h4⟩
+      · simp only [List.mem_singleton] at ha
+        subst ha
+        exact ⟨_, (by simp : L.withAlt (L.x ++ alt ++ L.y) ∈ _), rfl, ⟨L.x ++ alt ++ L.y, L.attr⟩,
+          by simp [Loc.withAlt_alts], yieldE_append3 h1 h3' h4⟩
+    · intro q hq
+      simp only [List.mem_cons, List.not_mem_nil, or_false] at hq
+      rcases hq with rfl | rfl
+      · apply located_bwd0 mem_mid
+        intro u hu
+        obtain ⟨u1, u3, u4, rfl, h1, h3, h4⟩ := yieldE_split3 hu
+        exact YieldE.append h1 (.optSome _ single (by simp) h3 h4)
+      · apply located_bwd0 mem_mid
+        intro u hu
+        obtain ⟨u1, u2, rfl, h1, h2⟩ := YieldE.split hu
+        exact YieldE.append h1 (.optNone _ h2)
+  · apply names_mono_mid
+    intro z hz
+    simp only [variableNames_cons, variableNames_nil, List.append_nil, Loc.prod_vars,
+      Loc.withAlt_vars, Factor.vars, altsVars, altVars_append, List.mem_append] at hz ⊢
+    grind
+  · apply lhs_mid
+    intro q hq
+    simp only [List.mem_cons, List.not_mem_nil, or_false] at hq
+    rcases hq with rfl | rfl <;> exact .inl rfl
+
+theorem optStep_ok_case2 (L : Loc) (X : Name)
+    (hfresh : X ∉ variableNames (L.pre ++ L.prod (.opt L.inner) :: L.post)) :
+    StepOK (L.pre ++ L.prod (.opt L.inner) :: L.post)
+      (L.pre ++ [L.withAlt (L.x ++ .n X .none :: L.y), L.withAlt (L.x ++ L.y),
+        ⟨X, L.inner.map (fun a => ⟨a, .none⟩)⟩] ++ L.post) := by
+  obtain ⟨hXl, hXx, hXf, hXy⟩ := fresh_parts hfresh
+  have hXin : X ∉ altsVars L.inner := by simpa [Factor.vars] using hXf
+  refine ⟨fun fs w hfs => ?_, ?_, ?_⟩
+  · apply step_equivX X [.group L.inner] _ _ _ _ hfresh
+    · apply located_fwd (fs' := L.x ++ .n X .none :: L.y) (by simp)
+      intro u hu
+      obtain ⟨u1, u2, rfl, h1, h2⟩ := YieldE.split hu
+      obtain ⟨u3, u4, rfl, h3, h4⟩ := YieldE.split_cons h2
+      rcases yieldE_opt_inv h3 with rfl | ⟨alt, ha, h3'⟩
+      · exact ⟨_, (by simp : L.withAlt (L.x ++ L.y) ∈ _), rfl, ⟨L.x ++ L.y, L.attr⟩,
+          by simp [Loc.withAlt_alts], by simpa using YieldE.append h1 h4⟩
+      · refine ⟨_, (by simp : L.withAlt (L.x ++ .n X .none :: L.y) ∈ _), rfl,
+          ⟨L.x ++ .n X .none :: L.y, L.attr⟩, by simp [Loc.withAlt_alts], ?_⟩
+        refine YieldE.append h1 (YieldE.cons (Der.yield ?_ _) h4)
+        exact ⟨⟨X, L.inner.map (fun a => ⟨a, .none⟩)⟩, by simp, rfl, ⟨alt, .none⟩,
+          List.mem_map.2 ⟨alt, ha, rfl⟩, h3'⟩
+    · intro q hq hne
+      simp only [List.mem_cons, List.not_mem_nil, or_false] at hq
+      rcases hq with rfl | rfl | rfl
+      · apply located_bwd mem_mid hfresh
+        intro u hu
+        simp only [substAlt_append, substAlt, Factor.subst, if_true, substAlt_fresh X _ _ hXx,
+          substAlt_fresh X _ _ hXy, List.singleton_append] at hu
+        obtain ⟨u1, u2, rfl, h1, h2⟩ := YieldE.split hu
+        obtain ⟨u3, u4, rfl, h3, h4⟩ := YieldE.split_cons h2
+        obtain ⟨alt, ha, h3'⟩ := yieldE_group_inv h3
+        exact YieldE.append h1 (.optSome _ alt ha h3' h4)
+      · apply located_bwd mem_mid hfresh
+        intro u hu
+        simp only [substAlt_append, substAlt_fresh X _ _ hXx, substAlt_fresh X _ _ hXy] at hu
+        obtain ⟨u1, u2, rfl, h1, h2⟩ := YieldE.split hu
+        exact YieldE.append h1 (.optNone _ h2)
+      · exact absurd rfl hne
+    · intro q hq he
+      simp only [List.mem_cons, List.not_mem_nil, or_false] at hq
+      rcases hq with rfl | rfl | rfl
+      · exact absurd he (Ne.symm hXl)
+      · exact absurd he (Ne.symm hXl)
+      · intro alt ha u hu
+        obtain ⟨a, ha', rfl⟩ := List.mem_map.1 ha
+        have hxa : X ∉ altVars a := fun hx => hXin (mem_altsVars.2 ⟨a, ha', hx⟩)
+        rw [substAlt_fresh X _ _ hxa] at hu
+        exact yieldE_group_intro ha' hu
+    · exact not_mem_of_all hfresh hfs
+  · apply names_mono_mid
+    intro z hz
+    simp only [variableNames_cons, variableNames_nil, List.append_nil, Loc.prod_vars,
+      Loc.withAlt_vars, List.mem_append] at hz ⊢
+    simp only [Factor.vars, altVars_append, altVars, List.mem_append, EProd.vars,
+      List.mem_cons, List.map_map, Function.comp_def, List.map_id', List.not_mem_nil,
+      or_false] at hz ⊢
+    grind
+  · apply lhs_mid
+    intro q hq
+    simp only [List.mem_cons, List.not_mem_nil, or_false] at hq
+    rcases hq with rfl | rfl | rfl
+    · exact .inl rfl
+    · exact .inl rfl
+    · exact .inr hfresh
+
+/-- all productions have at most one alternation (the state after `separate_alternatives`) -/
+def SingleAlts (ps : List EProd) : Prop := ∀ p ∈ ps, p.alts.length ≤ 1
+
+theorem optStep_ok {ps ps' : List EProd} (hs : SingleAlts ps) (h : optStep ps = .changed ps') :
+    StepOK ps ps' := by
+  unfold optStep at h
+  split at h
+  · cases h
+  · rename_i L hL
+    obtain ⟨f, hf, rfl⟩ := locate_spec hL
+    split at h
+    · rename_i single hin
+      rw [hin] at hf
+      have hfg := optInner_eq hf
+      subst hfg
+      injection h with h
+      subst h
+      exact optStep_ok_case1 L single
+    · have hfg := optInner_eq hf
+      subst hfg
+      split at h
+      · cases h
+      · rename_i X hX
+        have hapre : L.apre = [] := by
+          have := hs _ (mem_mid (pre := L.pre) (post := L.post) (p := L.prod (.opt L.inner)))
+          simp only [Loc.prod_alts, List.length_append, List.length_cons] at this
+          exact List.eq_nil_of_length_eq_zero (by omega)
+        simp only [Loc.withAlt, hapre, List.nil_append, removeAt_mid, Option.map_some] at h
+        injection h with h
+        subst h
+        have := optStep_ok_case2 L X (generateName_not_mem hX)
+        simpa only [Loc.withAlt, hapre, List.nil_append] using this
+
 end ParolModel
